@@ -52,6 +52,23 @@ impl StateMachine<'_> {
                 };
                 handled_line = true;
             }
+        } else if let (State::DiffHeader(DiffType::Combined(_, _)), Some((parents, result))) = (
+            &self.state,
+            self.line
+                .strip_prefix("mode ")
+                .and_then(|modes| modes.split_once("..")),
+        ) {
+            // Combined diff: `mode <mode of parent 1>,<mode of parent 2>..<mode of the result>`
+            if self.should_handle() && !self.config.color_only {
+                let mut parent_modes = parents.split(',');
+                let first = parent_modes.next().unwrap_or("");
+                self.mode_info = match (parent_modes.all(|mode| mode == first), first, result) {
+                    (true, "100644", "100755") => "mode +x".to_string(),
+                    (true, "100755", "100644") => "mode -x".to_string(),
+                    _ => format!("mode {} {} {}", parents, self.config.right_arrow, result),
+                };
+                handled_line = true;
+            }
         }
         Ok(handled_line)
     }
